@@ -741,7 +741,10 @@ class SubstanceNames(Harness):
     loop_bound = 30
     describe = ('concrete companion (no symbolic variable): eval_expr on a bare name over a database with the substances hydrogen / oxygen and the '
                 'symbols H / O: names, symbols and well-formed formulas are substances; near misses (`H2s`, `hydrogens`, `H2x`, `h2`, `Hs`) are not found')
-    bounds = ['a fixed list of names; no units in the database']
+    bounds = ['a fixed list of names; one base unit (kg), one unit (g), two prefixes (k, M)']
+    # names with a unit reading (exact, prefix + unit, plural) that are also a substance name or an element symbol: the unit wins,
+    # as for every other name (C07) - `Mg` is a megagram although magnesium has that symbol
+    UNITS = {'g': Fraction(1, 1000), 'kg': Fraction(1), 'Mg': Fraction(1000), 'gs': Fraction(1, 1000), 'kgs': Fraction(1), 'Mgs': Fraction(1000)}
     expect_classes = ['Result::Ok', 'Result::Err']
     _concrete = None
     GOOD = ['hydrogen', 'H', 'O', 'H2', 'H2O', 'HO', 'O2H4']
@@ -749,7 +752,7 @@ class SubstanceNames(Harness):
     stubs = ((r'^Context::unknown_unit_err$', lambda ex, nc, a: Struct('NotFoundError', [Opaque('got'), none(ex)]), 'Context::unknown_unit_err -> opaque'),)
 
     def build(self, ex, I):
-        names = self.GOOD + self.BAD
+        names = self.GOOD + self.BAD + sorted(self.UNITS)
         nm = names[ex.choose(len(names), 'name')]
         kgmol = lambda: dim({'kg': (True, 1), 'mol': (True, -1)})
         symbols, subs = MapV(), MapV()
@@ -758,13 +761,28 @@ class SubstanceNames(Harness):
             subs.ent[full] = [full, True, substance(ex, number(rational(Fraction(1)), dim({})), full,
                                                    {'molar_mass': prop_struct(ex, number(rational(Fraction(1)), dim({})), 'amount',
                                                                               number(rational(mass), kgmol()), 'mass')})]
-        reg = make_struct(ex, 'Registry', {'substances': subs, 'substance_symbols': symbols})
+        for sym, full in (('Mg', 'magnesium'), ('Mgs', 'magnesiumsulfide'), ('gs', 'gs')):
+            if sym != full:
+                symbols.ent[sym] = [sym, True, full]
+            subs.ent[full] = [full, True, substance(ex, number(rational(Fraction(1)), dim({})), full,
+                                                   {'molar_mass': prop_struct(ex, number(rational(Fraction(1)), dim({})), 'amount',
+                                                                              number(rational(Fraction(24, 1000)), kgmol()), 'mass')})]
+        base, units = MapV(), MapV()
+        base.ent['kg'] = [base_unit('kg'), True, Tup([])]
+        units.ent['g'] = ['g', True, number(rational(Fraction(1, 1000)), dim({'kg': (True, 1)}))]
+        plist = Arr([Tup(['k', rational(Fraction(1000))]), Tup(['M', rational(Fraction(10 ** 6))])])
+        reg = make_struct(ex, 'Registry', {'substances': subs, 'substance_symbols': symbols, 'base_units': base, 'units': units, 'prefixes': plist})
         ctxv = make_struct(ex, 'Context', {'registry': reg, 'temporaries': MapV(), 'previous_result': none(ex)})
         return [ref(ctxv), ref(expr_unit(ex, nm))], {'nm': nm}
 
     def post(self, ex, ctx, outcome):
         r = deref_all(outcome[1])
         nm = ctx['nm']
+        if nm in self.UNITS:
+            if not (is_ok(r) and deref_all(payload(r)).vname == 'Number'):
+                return [('`%s` has a unit reading, so it is that unit and not a substance' % nm, False)]
+            val, d = number_parts(deref_all(payload(r)).fields[0])
+            return [('`%s` denotes its unit reading (%s kg)' % (nm, self.UNITS[nm]), n_eq(numeric_parts(val)[1], self.UNITS[nm]))]
         if nm in self.GOOD:
             okk = is_ok(r) and deref_all(payload(r)).vname == 'Substance'
             return [('`%s` is a substance' % nm, bool(okk))]
@@ -776,7 +794,8 @@ class SubstanceNames(Harness):
         return c
 
     def native(self, inputs, label):
-        return [{'mode': 'query', 'text': t} for t in ('NaCls', 'H2s', 'CH4s', 'waters', 'molar_mass of C8H10N4O2s', 'NaCl', 'H2O')]
+        return [{'mode': 'query', 'text': t} for t in ('NaCls', 'H2s', 'CH4s', 'waters', 'molar_mass of C8H10N4O2s', 'NaCl', 'H2O',
+                                                         '3 Mg -> kg', '2 hg -> kg', '1 Pt -> m', '1 Ga -> year')]
 
     def judge(self, inputs, label, obs):
         bad = []
@@ -788,6 +807,15 @@ class SubstanceNames(Harness):
         for t, o in zip(('NaCl', 'H2O'), obs[5:]):
             if o.get('outcome') != 'ok':
                 bad.append('`%s` is refused: %s' % (t, o.get('display')))
+        # prefix + unit names that are also element symbols: the unit (megagram, hectogram, petatonne, gigayear)
+        for (t, want), o in zip((('3 Mg -> kg', Fraction(3000)), ('2 hg -> kg', Fraction(1, 5)), ('1 Pt -> m', None), ('1 Ga -> year', Fraction(10 ** 9))), obs[7:]):
+            j = o.get('json') or {}
+            if j.get('type') == 'substance' or (o.get('outcome') == 'ok' and 'molar' in str(o.get('display'))):
+                bad.append('`%s` is read as a substance: %s' % (t, (o.get('display') or '')[:60]))
+                continue
+            got = obs_number_json(o)
+            if want is not None and (got is None or got[0] != want):
+                bad.append('`%s` = %s, the unit reading gives %s' % (t, (o.get('display') or '')[:60], want))
         return bool(bad), '; '.join(bad[:3]) or 'near misses are refused, formulas accepted'
 
 
